@@ -66,6 +66,11 @@ def gen_ops(tier, rng):
         for (d, p) in [(12, 4), (5, 3)]:
             for size in [4097, 20001, 65537 + 13]:
                 ops.append((f"enc sparse:{rng.randrange(1, 999)} {o} {d} {p} {size} {rng.randrange(1, 1<<30)}", {"cat": "enc-sparse", "p": p}))
+    # block-sparse custom matrices (whole aligned 10x10 tiles zero) under every option row
+    for o in OPTMATRIX:
+        for (d, p) in [(20, 12), (12, 4), (11, 21)]:
+            for size in [100, 4097]:
+                ops.append((f"enc blocks:{rng.randrange(1, 9999)} {o} {d} {p} {size} {rng.randrange(1, 1<<30)}", {"cat": "enc-blocks", "p": p}))
     # Leopard GF8 / GF16 under every option row and build: the portable butterflies (AVX2/SSSE3 off, noasm, nopshufb) must
     # give the bytes of the SIMD ones - Encode and every Reconstruct mode
     leoshapes = [(2, 2), (5, 3), (10, 4), (17, 8), (40, 20), (3, 9), (1, 1)]
@@ -77,6 +82,8 @@ def gen_ops(tier, rng):
                 E = sorted(rng.sample(range(d + p), rng.randint(1, p)))
                 mode = rng.choice(["all", "all", "data"])
                 ops.append((f"rec {fam} {o} {d} {p} {size} {rng.randrange(1, 1<<30)} {mode} {lst(E)} - nil", {"cat": "rec-" + fam, "p": p}))
+            if fam == "leo8":       # a shard size that is an exact multiple of the 32 KiB work chunk, parity not a power of two
+                ops.append((f"enc leo8 {o} 5 3 {rng.choice([32768, 65536])} {rng.randrange(1, 1<<30)}", {"cat": "enc-leo8-chunk", "p": 3}))
             d, p = rng.choice(leoshapes)
             ops.append((f"ver {fam} {o} {d} {p} 128 {rng.randrange(1, 1<<30)} {rng.randrange(d+p)} {rng.randrange(128)} 77", {"cat": "ver-" + fam, "p": p}))
     if tier == "thorough":
